@@ -75,6 +75,8 @@ def reference(Psi, xi, yi):
 def run(c, x, phi, xi_list, yi_list):
     kw = {'progress': False}
     if c['variant'] == 'hosvd':
+        if c['seed'] % 3 == 0:
+            kw['max_rank'] = 1000            # a cap above every rank is a no-op
         return tedmd.amuset_hosvd(x.copy(), xi_list, yi_list, phi, threshold=c['threshold'], **kw)
     return tedmd.amuset_hocur(x.copy(), xi_list, yi_list, phi, max_rank=1000, multiplier=3, **kw)
 
